@@ -45,13 +45,19 @@ Fixpoint lookup (tbl : list (N * N)) (k : N) : option N :=
 Fixpoint lookup2 (tbl : list (N * (N * N))) (k : N) : option (N * N) :=
   match tbl with [] => None | (a, b) :: t => if a =? k then Some b else lookup2 t k end.
 
+(* big-endian encoder on bit operations (linear in the size of v; Lib/Bytes.be_enc divides, which is quadratic on
+   4096-bit moduli).  Proofs/RotProofs.v: be_encf = be_enc. *)
+Fixpoint le_encf (w : nat) (n : N) : list N :=
+  match w with O => [] | S w' => N.land n 255 :: le_encf w' (N.shiftr n 8) end.
+Definition be_encf (w : nat) (n : N) : list N := rev (le_encf w n).
+
 (* math.ceil(v.bit_length() / 8) *)
 Definition byte_len (v : N) : nat := N.to_nat ((N.size v + 7) / 8).
 (* v.to_bytes(byte_len v, "big"): minimal big-endian encoding (empty for 0) *)
-Definition be_min (v : N) : list N := be_enc (byte_len v) v.
+Definition be_min (v : N) : list N := be_encf (byte_len v) v.
 (* v.to_bytes(len, "big"): OverflowError when v does not fit *)
 Definition to_bytes (len : nat) (v : N) : res (list N) :=
-  if v <? 2 ^ (8 * N.of_nat len) then Ok (be_enc len v) else Err 2.
+  if N.size v <=? 8 * N.of_nat len then Ok (be_encf len v) else Err 2.
 Definition coord_size (c : N) : nat := N.to_nat ((c + 7) / 8).
 Definition key_bits (k : key) : N := match k with KRsa n _ => N.size n | KEcc c _ _ => c end.
 
@@ -89,11 +95,26 @@ Inductive supply : Type :=
 | SCaBytes    (* CA certificate given as bytes or as a file path *)
 | SCaObj.     (* CA certificate given as a spsdk Certificate object *)
 
+(* EllipticCurvePublicNumbers(x, y, curve).public_key(): the point must satisfy y^2 = x^3 - 3x + b (mod p)
+   (NIST P-256 / P-384 / P-521 domain parameters, FIPS 186-4 D.1.2) *)
+Definition curve_p (c : N) : N :=
+  if c =? 256 then 2 ^ 256 - 2 ^ 224 + 2 ^ 192 + 2 ^ 96 - 1
+  else if c =? 384 then 2 ^ 384 - 2 ^ 128 - 2 ^ 96 + 2 ^ 32 - 1 else 2 ^ 521 - 1.
+Definition curve_b (c : N) : N :=
+  if c =? 256 then 0x5AC635D8AA3A93E7B3EBBD55769886BC651D06B0CC53B0F63BCE3C3E27D2604B
+  else if c =? 384 then 0xB3312FA7E23EE7E4988E056BE3F82D19181D9C6EFE8141120314088F5013875AC656398D8A2ED19D2A85C8EDD3EC2AEF
+  else 0x0051953EB9618E1C9A1F929A21A0B68540EEA2DA725B99B315F3B8B489918EF109E156193951EC7E937B1652C0BD3BB1BF073573DF883D2C34F1EF451FD46B503F00.
+Definition on_curve (c x y : N) : bool :=
+  let p := curve_p c in
+  (x <? p) && (y <? p) && ((y * y) mod p =? (x * x * x + (p - 3) * x + curve_b c) mod p).
+
 (* PublicKey.parse on data that is neither PEM nor DER: PublicKeyEcc.recreate_from_data, then
    PublicKeyRsa.recreate_public_numbers (first supported size with size/8+3 <= len <= size/8+4) *)
 Definition raw_decode (d : list N) : res key :=
   let L := nlen d in
-  let ecc (c : N) := let h := (length d / 2)%nat in Ok (KEcc c (be_dec (firstn h d)) (be_dec (skipn h d))) in
+  let ecc (c : N) := let h := (length d / 2)%nat in
+                     let x := be_dec (firstn h d) in let y := be_dec (skipn h d) in
+                     if on_curve c x y then Ok (KEcc c x y) else Err 1 in
   if L =? 64 then ecc 256 else if L =? 96 then ecc 384 else if L =? 132 then ecc 521
   else match find (fun ks => (ks / 8 + 3 <=? L) && (L <=? ks / 8 + 4)) g_rsa_sizes with
        | Some ks => let m := N.to_nat (ks / 8) in Ok (KRsa (be_dec (firstn m d)) (be_dec (skipn m d)))
@@ -368,7 +389,7 @@ Fixpoint parse_certs (n : nat) (rest : list N) : res (list (list N) * list N) :=
   | O => Ok ([], rest)
   | S n' =>
       if nlen rest <? 4 then Err 2                          (* struct.error from unpack_from *)
-      else let len := N.to_nat (le_dec (firstn 4 rest)) in
+      else let len := N.to_nat (N.min (le_dec (firstn 4 rest)) (nlen rest)) in   (* slices clamp at the end of the data *)
            let c := firstn len (skipn 4 rest) in
            match parse_certs n' (skipn (4 + len) rest) with
            | Err k => Err k
@@ -386,7 +407,8 @@ Definition cb1_parse (d : list N) : res cb1 :=
   if negb (f32 8%nat =? g_cb1_hdr_size) then Err 1 else
   let cnt := f32 24%nat in let tl := f32 28%nat in
   if nlen d <? tl + g_rkht_size * g_rkh_size then Err 1 else
-  match parse_certs (N.to_nat cnt) (skipn (N.to_nat g_cb1_hdr_size) d) with
+  (* more certificates than bytes cannot be read: the loop ends in struct.error within nlen d iterations *)
+  match parse_certs (N.to_nat (N.min cnt (nlen d))) (skipn (N.to_nat g_cb1_hdr_size) d) with
   | Err k => Err k
   | Ok (certs, rest) =>
       let tbl := firstn (N.to_nat (g_rkht_size * g_rkh_size)) rest in
@@ -490,7 +512,7 @@ Definition rkr_out_size (r : N * list (list N) * list N) : nat :=
 Definition isk_parse (d : list N) (sig_size : nat) : res isk_out :=
   bind (u32_at d 0) (fun w0 => bind (u32_at d 4) (fun w1 => bind (u32_at d 8) (fun w2 =>
   let heur := N.land w0 g_isk_heur_mask =? g_isk_heur_magic in
-  let sig_off := if heur then g_isk_heur_offset else w0 in
+  let sig_off := N.min (if heur then g_isk_heur_offset else w0) (nlen d) in      (* slices clamp at the end of the data *)
   let constraints := if heur then w0 else w1 in
   let flags := if heur then w1 else w2 in
   let hw := if heur then 8%nat else 12%nat in
@@ -549,7 +571,7 @@ Definition rkh_spec (k : key) : list N :=
   match k with
   | KRsa n e => sha256 (be_min n ++ be_min e)
   | KEcc c x y => hash (if c =? 256 then A256 else if c =? 384 then A384 else A512)
-                       (be_enc (coord_size c) x ++ be_enc (coord_size c) y)
+                       (be_encf (coord_size c) x ++ be_encf (coord_size c) y)
   end.
 (* cert block v1 (RKTH): SHA-256 over four 32-byte slots, unused slots zero *)
 Definition rot_spec_v1 (ks : list key) : list N :=
@@ -629,10 +651,15 @@ Definition run_case (fn : Z) (args : list value) : value :=
       match inputs_of inp with
       | None => VErr E_BADCASE
       | Some i =>
-          if (rt =? 1)%Z then VList [vb (rot_v1 i); vb (rot_v1_export i)]
-          else if (rt =? 21)%Z then VList [vb (rot_v21 i); vb (rot_v21_export i)]
-          else if (rt =? 3)%Z then VList [vb (rot_ahab ahab1 i); vb (rot_ahab_export ahab1 i)]
-          else if (rt =? 4)%Z then VList [vb (rot_ahab ahab2 i); vb (rot_ahab_export ahab2 i)]
+          (* hash and exported table from ONE evaluation of the common prefix (same functions as rot_* above) *)
+          let both {A} (r : res A) (f g : A -> res (list N)) : value :=
+            match r with Err k => VList [VErr k; VErr k] | Ok a => VList [vb (f a); vb (g a)] end in
+          if (rt =? 1)%Z then both (bind (convert_all i) (fun ks => rkht_v1 (map fst ks)))
+                                   (fun hs => Ok (rkth_v1 hs)) (fun hs => Ok (export_v1 hs))
+          else if (rt =? 21)%Z then both (bind (convert_all i) (fun ks => rkht_from_keys (map fst ks)))
+                                   rkth_v21 (fun hs => Ok (export_v21 hs))
+          else if (rt =? 3)%Z then both (rot_ahab_export ahab1 i) (fun t => Ok (hash (halg_of_id (a_hash ahab1)) t)) (fun t => Ok t)
+          else if (rt =? 4)%Z then both (rot_ahab_export ahab2 i) (fun t => Ok (hash (halg_of_id (a_hash ahab2)) t)) (fun t => Ok t)
           else if (rt =? 5)%Z then VErr E_BADCASE
           else VList [VErr 1; VErr 1]
       end
@@ -641,7 +668,11 @@ Definition run_case (fn : Z) (args : list value) : value :=
       match inputs_of inp with
       | None => VErr E_BADCASE
       | Some i => let ks := map (fun p => (fst p, match snd p with SCaBytes => true | SCaObj => true | _ => false end)) i in
-                  VList [vb (hab_fuses ks); vb (hab_table (Z.to_N ver) ks)]
+                  match map_res hab_item ks with
+                  | Err k => VList [VErr k; VErr k]
+                  | Ok items => VList [VBytes (sha256 (concat (map sha256 items)));
+                                       VBytes ([g_hab_crt] ++ be16 (4 + nlen (concat items)) ++ [Z.to_N ver] ++ concat items)]
+                  end
       end
   (* 3: RKHT classes: version, inputs -> [rkth; export; rkh list] *)
   | 3%Z, [VInt ver; VList inp] =>
@@ -699,10 +730,12 @@ Definition run_case (fn : Z) (args : list value) : value :=
               match cb21_export (hash_signer (Z.to_nat siglen)) b with
               | Err k => VErr k
               | Ok (ex, msgs) =>
-                  VList [vb (cb21_rkth b);
-                         vres (fun r => let '(f, _, _) := r in vN f) (rkr_calc (b_ca b) (b_used b) (b_keys b));
-                         vres (fun r => VBytes (rkr_bytes r)) (rkr_calc (b_ca b) (b_used b) (b_keys b));
-                         VBytes ex; vblist msgs; vres cb21_parsed_value (cb21_parse ex)]
+                  match rkr_calc (b_ca b) (b_used b) (b_keys b) with
+                  | Err k => VErr k
+                  | Ok r => let '(f, hs, _) := r in
+                            VList [vb (rkth_v21 hs); vN f; VBytes (rkr_bytes r);
+                                   VBytes ex; vblist msgs; vres cb21_parsed_value (cb21_parse ex)]
+                  end
               end
           end
       | _, _ => VErr E_BADCASE
